@@ -6,7 +6,7 @@ import re
 from harness import core, docgen, inputs, trees, xdoc
 
 GEN = ['gen_tables', 'gen_regex', 'gen_config', 'gen_escapes', 'gen_blockstart']
-THEOREMS = ['C04_block_starts_are_the_source', 'C04_quote_wraps', 'C04_quote_wraps_document', 'C04_configs_try_quote_first', 'C04_full_statement_refuted', 'C04_list_wraps', 'C04_list_law_hypotheses', 'C04_bounded_list']
+THEOREMS = ['C04_block_starts_are_the_source', 'C04_list_markers_are_the_source', 'C04_quote_wraps', 'C04_quote_wraps_document', 'C04_configs_try_quote_first', 'C04_full_statement_refuted', 'C04_list_wraps', 'C04_list_law_hypotheses', 'C04_bounded_list']
 TRUSTED = ['the parser model (tied by X-doc on the texts and on their embeddings)',
            'Proofs/ReFirst.v (first-character analysis) and Proofs/ReExact.v (greedy repetition over a maximal run) - both proved against Re/ReMatch.v - '
            'evaluated on the patterns regenerated from /repo',
